@@ -150,6 +150,43 @@ Theorem C15_conv_result_type : forall d v v', supported d = true -> conv d v = O
 Proof. exact conv_type. Qed.
 Print Assumptions C15_conv_result_type.
 
+(** further public routes.  The vector overloads of colIndex / colName are the scalar ones element by element ... *)
+Theorem C15_col_indices_spec : forall cols names,
+  (forall l, col_indices cols names = Ok l -> Forall2 (fun n i => find_col n cols = Some (Z.to_nat i) /\ (0 <= i)%Z) names l) /\
+  ((exists n, In n names /\ find_col n cols = None) -> col_indices cols names = Err H5EXC).
+Proof. exact col_indices_spec. Qed.
+Print Assumptions C15_col_indices_spec.
+
+Theorem C15_col_names_spec : forall cols idxs l,
+  col_names cols idxs = Ok l -> Forall2 (fun i n => col_name cols i = Ok n) idxs l.
+Proof. exact col_names_spec. Qed.
+Print Assumptions C15_col_names_spec.
+
+(** ... and the column templates with a narrow element type (int8/int16/uint8/uint16): writing is writing
+    the 32-bit integer of the same signedness; reading clamps into T's range and returns a value that fits unchanged;
+    for the seven member types the element conversion IS the member conversion *)
+Theorem C15_write_narrow_is_carrier : forall cols nr ro c t off cnt vs lohi,
+  small_range t = Some lohi ->
+  plan_column cols nr ro c t off cnt vs = plan_column cols nr ro c (elt_carrier t) off cnt vs.
+Proof. exact write_narrow_is_carrier. Qed.
+Print Assumptions C15_write_narrow_is_carrier.
+
+Theorem C15_conv_elt_narrow_range : forall t lo hi v v',
+  small_range t = Some (lo, hi) -> (lo <= hi)%Z -> conv_elt t v = Ok v' ->
+  exists z, v' = mk_int (elt_carrier t) z /\ (lo <= z <= hi)%Z.
+Proof. exact conv_elt_narrow_range. Qed.
+Print Assumptions C15_conv_elt_narrow_range.
+
+Theorem C15_conv_elt_narrow_id : forall t lo hi z,
+  small_range t = Some (lo, hi) -> (lo <= z <= hi)%Z ->
+  conv_elt t (mk_int (elt_carrier t) z) = Ok (mk_int (elt_carrier t) z).
+Proof. exact conv_elt_narrow_id. Qed.
+Print Assumptions C15_conv_elt_narrow_id.
+
+Theorem C15_conv_elt_supported : forall t v, supported t = true -> conv_elt t v = conv t v.
+Proof. exact conv_elt_supported. Qed.
+Print Assumptions C15_conv_elt_supported.
+
 (** non-vacuity: a history through all three paths with a shrink and a regrow, on model and specification *)
 Example C15_nonvacuous :
   frun [FNew ex_cols; FRows 3; FWRow 1 [VInt32 7; VString "x"]; FWCol (ByIdx 0) TInt32 1 0 [VInt32 8; VInt32 9];
